@@ -285,6 +285,48 @@ theorem applyLocationRW_written_once {α} (f : WinFn α) (L S h : Int) (dO dH dF
     rfl
 
 
+/-! ### The two loops composed (CDFt / QDM: the loop over year windows runs inside every day-of-year window)
+
+The year windows of CDFt / QuantileDeltaMapping are laid out over the years of the *sample of the day-of-year window*
+(`take years (idxWindow L doy c)`), whatever that list is — all years of the period for a wide window, the leap years
+only for a one-day window on day 366, a **single** year when the period holds one leap year.  No lower bound on the size
+of a sample appears among the hypotheses: a window is never too small to assign the steps it adjusts. -/
+
+/-- **Exact cover of the composed loops**: every step `i` is adjusted by exactly one day-of-year centre `c` and lies in
+    `c`'s sample (`S ≤ L`); within the years of that sample its year is adjusted by exactly one year centre `y`, and lies
+    in `y`'s year window (`YS ≤ YL`). -/
+theorem composed_cover_unique (L S h YL YS k : Int) (doy years : List Int) (i : Nat)
+    (hS : S = 2 * h + 1) (hh : 0 ≤ h) (hSL : S ≤ L) (hYS : YS = 2 * k + 1) (hk : 0 ≤ k) (hYSL : YS ≤ YL)
+    (hi : i < doy.length) (hlen : years.length = doy.length) (hr : ∀ d ∈ doy, 1 ≤ d ∧ d ≤ 366) :
+    ∃ c, (useCenters S doy).filter (fun c => (idxAdjust S doy c).contains i) = [c] ∧
+      i ∈ idxWindow L doy c ∧
+      ∃ y, (yearCenters YS (take years (idxWindow L doy c))).filter
+              (fun y => inBlock YS y (years[i]'(by omega))) = [y] ∧
+        years[i]'(by omega) ∈ yearsInWindow YL y := by
+  have hiy : i < years.length := by omega
+  obtain ⟨c, hc⟩ := use_cover_unique S h doy i hS hh hi (fun d hd => ⟨by have := hr d hd; omega, (hr d hd).2⟩)
+  have hcm : c ∈ (useCenters S doy).filter (fun c => (idxAdjust S doy c).contains i) := by
+    rw [hc]; exact List.mem_singleton.mpr rfl
+  have hadj : i ∈ idxAdjust S doy c := List.contains_iff_mem.mp (List.mem_filter.mp hcm).2
+  have hwin := doy_adjust_subset_window L S doy c i hSL (by omega) hr hadj
+  have hmem : years[i] ∈ take years (idxWindow L doy c) := by
+    unfold take
+    rw [List.mem_filterMap]
+    exact ⟨i, hwin, by simp [List.getElem?_eq_getElem hiy]⟩
+  obtain ⟨y, hy⟩ := years_cover_unique YS k _ _ hYS hk hmem
+  refine ⟨c, hc, hwin, y, hy, ?_⟩
+  have hym : y ∈ (yearCenters YS (take years (idxWindow L doy c))).filter (fun y => inBlock YS y years[i]) := by
+    rw [hy]; exact List.mem_singleton.mpr rfl
+  exact years_adjusted_subset_window YL YS y _ hYSL (by omega)
+    ((mem_yearsAdjusted YS y _).mpr (List.mem_filter.mp hym).2)
+
+-- the hypotheses are satisfiable by the smallest sample: one-day windows on 30 / 31 December of 2001..2006 (31 Dec 2004 is
+-- the only day 366): the window on day 366 holds one step, its year list is [2004], and that single year gets a year centre
+example : idxWindow 1 [364, 365, 364, 365, 364, 365, 365, 366, 364, 365, 364, 365] 366 = [7] := by decide
+example : take [2001, 2001, 2002, 2002, 2003, 2003, 2004, 2004, 2005, 2005, 2006, 2006] [7] = [2004] := by decide
+example : yearCenters 9 [2004] = [2004] ∧ yearCenters 1 [2004] = [2004] := by decide
+
+
 /-! ### Non-vacuity and the defects that were repaired (F2, F13) -/
 
 -- a leap-year-only set with S = 9: all nine leap years 2000..2032 are covered
